@@ -73,6 +73,19 @@ impl Environment<Stdin, Stdout> {
     }
 }
 
+#[cfg(feature = "verif")]
+impl<I, O> Environment<I, O> {
+    pub fn verif_scope_depth(&self) -> usize {
+        self.symbols.len()
+    }
+    pub fn verif_innermost_has(&self, name: &VariableName) -> bool {
+        !matches!(
+            self.symbols.last().unwrap().lookup_var(name),
+            Err(SymTableError::NameNotFound(_))
+        )
+    }
+}
+
 impl<I, O> Environment<I, O> {
     pub fn push_scope(&mut self) {
         self.symbols.push(SymTable::new())
